@@ -183,6 +183,9 @@ pub fn run(case: &Value, f: &mut Fails) {
 	let full = case["full"].as_bool().unwrap();
 	use iref::{iri, uri};
 
+	// ---------------- the complete conversion lattice (C13)
+	super::conv::run(case, f, s);
+
 	// ---------------- IRI family
 	{
 		let a0 = allocs();
